@@ -175,7 +175,13 @@ func Execute(t *testing.T, sc *Scenario, dec *Decider, obs ...Observer) (*RunRes
 	k := NewKernel(sc, dir, dec)
 	k.obs = obs
 	res := &RunResult{}
-	func() {
+	// synctest.Test ends the calling goroutine (t.FailNow) when the race
+	// detector reported something during the bubble; run it on a helper
+	// goroutine so that the batch goes on and the report is picked up from the
+	// race log.
+	done := make(chan struct{})
+	go func() {
+		defer close(done)
 		defer func() {
 			if r := recover(); r != nil {
 				res.BubbleErr = fmt.Sprint(r)
@@ -185,6 +191,7 @@ func Execute(t *testing.T, sc *Scenario, dec *Decider, obs ...Observer) (*RunRes
 			k.Run()
 		})
 	}()
+	<-done
 	res.Log = k.log
 	res.Decisions = dec.Vec
 	res.Stats = k.Stats
